@@ -158,11 +158,12 @@ def main():
     if save:
         sd = os.path.join("/verif/seeded", save)
         os.makedirs(sd, exist_ok=True)
+        same = os.path.realpath(d) == os.path.realpath(sd)
         for f in ("patch.diff", "demo.sh", "notes.md"):
-            if os.path.exists(os.path.join(d, f)):
+            if not same and os.path.exists(os.path.join(d, f)):
                 shutil.copy(os.path.join(d, f), os.path.join(sd, f))
         for f in os.listdir(d):
-            if f.endswith("_test.go") or f.endswith(".py"):
+            if not same and (f.endswith("_test.go") or f.endswith(".py")):
                 shutil.copy(os.path.join(d, f), os.path.join(sd, f))
         meta = {"id": save, "breaks_property": prop, "repo_commit": sh("git -C /repo rev-parse HEAD")[1].strip(),
                 "confirmation": {k: res.get(k) for k in ("applies", "builds", "unit_tests_same", "regtest_pass", "demo_clean_rc", "demo_variant_rc", "confirmed")},
